@@ -2,6 +2,7 @@ package rules
 
 import (
 	"go/token"
+	"go/types"
 	"sort"
 	"strings"
 
@@ -608,4 +609,42 @@ func (c *Ctx) c08ResultFormats() {
 		R.Check(d2 == want, "C08.R4", "Columns.Write:format-table", where, "DataRow selects the per-column format by the same table", d2, "decision table is ["+d2+"], expected ["+want+"]")
 		R.Check(d1 == d2, "C08.R4", "format-table-agreement", where, "the format announced in RowDescription is the format used to encode the DataRow (sibling agreement)", "both tables: "+d1, "RowDescription and DataRow select formats differently: ["+d1+"] vs ["+d2+"]")
 	}
+}
+
+// nullSentinels: wherever a 32-bit length read from the wire is used as the size of a value read, the
+// -1 sentinel must be recognised by equality first (NULL), so that no other length is taken for NULL and
+// NULL is not taken for a length.
+func (c *Ctx) nullSentinels(rule string) {
+	R := c.R
+	n := 0
+	for _, fn := range c.P.ScopeFuncs() {
+		var lens []ssa.Value
+		for _, ci := range core.Calls(fn) {
+			if call, ok := ci.(*ssa.Call); ok && readerMethod(call) != "" {
+				if v := resultOf(call, 0); v != nil {
+					if bt, isB := v.Type().Underlying().(*types.Basic); isB && (bt.Kind() == types.Uint32 || bt.Kind() == types.Int32) {
+						lens = append(lens, v)
+					}
+				}
+			}
+		}
+		for _, ci := range core.Calls(fn) {
+			call, ok := ci.(*ssa.Call)
+			if !ok || !isReaderMethod(call, "GetBytes") {
+				continue
+			}
+			for _, ln := range lens {
+				if core.StripConv(call.Call.Args[1]) != ln {
+					continue
+				}
+				n++
+				sentinel := int64(0xFFFFFFFF)
+				if bt := ln.Type().Underlying().(*types.Basic); bt.Kind() == types.Int32 {
+					sentinel = -1
+				}
+				R.Check(len(constEqEdges(ln, sentinel, true)) > 0 && anyDominates(constEqEdges(ln, sentinel, false), call.Block()), rule, fkey(fn)+":null-sentinel", c.at(call), "a declared value length of -1 (0xFFFFFFFF) is recognised by equality before the value is sliced; every other length is read as a length", "GetBytes(int(length)) is dominated by the length != 0xFFFFFFFF edge", "the value read is not guarded by an equality test against the -1 sentinel: NULL is treated as a length, or malformed lengths are fabricated into NULLs")
+			}
+		}
+	}
+	R.Floor(rule, "length-prefixed value reads", n, 2)
 }
